@@ -98,7 +98,7 @@ def seq_b(rep, max_ch, ops, lines, expect, label):
         if op[0] == 'open':
             live_ids = [o.channel_id for o in objs if not o.is_closed]
             try:
-                ch = conn.channel()
+                ch = conn.channel(rpc_timeout=1)    # replies are injected synchronously: only a lost reply can take this long
                 objs.append(ch)
                 if ch.channel_id in live_ids:
                     rep.violation('C10/duplicate-live-id', 'channel() returned id %d which is in use (%s)' % (ch.channel_id, label),
@@ -123,7 +123,13 @@ def seq_b(rep, max_ch, ops, lines, expect, label):
             o = objs[k]
             was = o.current_state
             if op[0] == 'close':
-                o.close()
+                try:
+                    o.close()
+                except Exception as why:   # noqa  -- every request of this history is answered at once: close() has no reason to fail
+                    rep.violation('C10/close-raised-in-answered-history:%s' % type(why).__name__,
+                                  'close() of object %d (state %d) raised %r after %r' % (k, was, why, ops),
+                                  {'kind': 'seq', 'max': max_ch, 'ops': ops})
+                    return
                 if was == 3:
                     lines += ['c10.closeStart %d' % k, 'c10.closed %d' % k]
                     expect += [None, proj('ok')]
@@ -220,6 +226,56 @@ def seq_number_freed_only_after_handshake(rep, rng):
         rep.violation('C10/stale-close-can-hit-reused-number', 'close() on channel %d in state %d (a close is already in progress) sent another '
                       'Channel.Close: it reaches the broker after the number may have been given to a new channel' % (w, state_before), replay)
     rep.case(('seq-number-freed', 'b', state_before), True, sample=replay)
+
+
+def seq_open_timeout(rep, rng):
+    """Channel.Open times out on the client (the broker may well have opened the channel: its OpenOk is merely late):
+    nobody closed that number, so it must not be handed out again."""
+    import types
+    import amqpstorm.rpc as arpc
+    from amqpstorm.exception import AMQPChannelError, AMQPConnectionError
+    max_ch = rng.randint(1, 4)
+    before = rng.randint(0, max_ch - 1)
+    sc = SeqConn(max_ch)
+    conn = sc.conn
+    silent = {'on': False}
+    inner = conn.write_frame
+
+    def write_frame(cid, fr):
+        if silent['on'] and fr.name == 'Channel.Open':
+            sc.sent.append((cid, fr.name))
+            return                      # no OpenOk in time
+        return inner(cid, fr)
+    conn.write_frame = write_frame
+    now = [0.0]
+    saved = arpc.time
+    arpc.time = types.SimpleNamespace(time=lambda: now[0], sleep=lambda s: now.__setitem__(0, now[0] + 100.0))
+    replay = {'kind': 'seq-open-timeout', 'max': max_ch, 'opened_before': before}
+    try:
+        live = [conn.channel(rpc_timeout=1).channel_id for _ in range(before)]
+        silent['on'] = True
+        try:
+            conn.channel(rpc_timeout=1)
+            timed_out = None
+        except AMQPChannelError:
+            timed_out = [cid for cid, name in sc.sent if name == 'Channel.Open'][-1]
+        silent['on'] = False
+        later = []
+        for _ in range(max_ch):
+            try:
+                later.append(conn.channel(rpc_timeout=1).channel_id)
+            except AMQPConnectionError:
+                later.append('exhausted')
+                break
+        if timed_out is not None and timed_out in later:
+            rep.violation('C10/number-reused-after-open-timeout', 'Channel.Open for number %d timed out (never closed, the broker may hold it open); '
+                          'a later channel() handed out %d again (max %d, live %r, later %r)' % (timed_out, timed_out, max_ch, live, later), replay)
+        elif len(set(live + [x for x in later if x != 'exhausted'])) != len(live + [x for x in later if x != 'exhausted']):
+            rep.violation('C10/duplicate-live-id', 'after an open time-out: live %r, later %r' % (live, later), replay)
+    finally:
+        arpc.time = saved
+    rep.case(('seq-open-timeout', max_ch, before), True, sample=replay)
+    rep.count('seq', 'open-timeout')
 
 
 def cosim_one(args):
@@ -392,8 +448,13 @@ def check(rep):
         meta += [('seq-a-random', max_ch, last, reg)] * 2
     rep.count('seq', 'A', len(lines) // 2)
     for _ in range(20 if not thorough else 200):
-        seq_alloc_during_closeok(rep, rng)
-        seq_number_freed_only_after_handshake(rep, rng)
+        for stage in (seq_alloc_during_closeok, seq_number_freed_only_after_handshake, seq_open_timeout):
+            try:
+                stage(rep, rng)
+            except Exception as why:   # noqa  -- the real code raised where the scripted history allows no failure
+                rep.violation('C10/scripted-history-raised:%s' % type(why).__name__,
+                              '%s: the library raised %r in a history in which every request is answered' % (stage.__name__, why),
+                              {'kind': 'stage', 'stage': stage.__name__})
     # ---- SEQ-B sequences ------------------------------------------------------------------------
     alphabet = [('open',), ('close', 0), ('close', 1), ('bclose', 0), ('bclose', 1)]
     maxlen = 5 if not thorough else 7
